@@ -226,3 +226,18 @@ def rescaled(specs, pf, vf):
     return out
 
 
+
+
+def split_map_expr(sp, s_):
+    """Coq expression comparing the joint mapping of a split set-up with Split.split_map of its interval problems
+    (original step lists from the calendar)"""
+    import common as C
+    from props.C14 import interval_ranges
+    rng_ = interval_ranges(sp, sp['opts']['split'])
+    if len(rng_) != len(s_['ops']):
+        return None
+    parts = ['(split_part %s %s %s)' % (C.lst([C.nat(t) for t in st]), C.nat(len(p['c'])), C.mapping(p['mapping'])) for st, p in zip(rng_, s_['ops'])]
+    return '(c14_split_map_case %s %s)' % (C.lst(parts), C.mapping(s_['mapping']))
+
+
+SPLIT_MAP_NAMES = ['mapping rows of every interval problem lie within its steps and variables', 'joint mapping = Split.split_map of the interval problems']
